@@ -101,7 +101,8 @@ def report(ctx, v, reqinfo, own, sample_events=None, tag=None, own_tags=(), only
             # this stage judges only what it names (see the plan)
             others.append({"key": key, "what": b["what"]})
             continue
-        if b["p"] == own or b["p"] in own_tags or (own == "C02" and b["what"].startswith("second response for one request")):
+        if b["p"] == own or b["p"] in own_tags or (own == "C02" and b["what"].startswith("second response for one request")) \
+                or (own == "C01" and b["what"].startswith("request hangs")):     # never answered is C01's too, whatever phase the request hangs in
             ctx.violation(key, "%s (request %s)" % (b["what"], info), replay=rec)
         else:
             others.append({"key": key, "what": b["what"]})
@@ -254,7 +255,7 @@ def concurrent_replies_stage(ctx, own, thorough):
     client of every frame it receives.  A frame that names a request's token but is none of the answers a backend gave to
     it (`Altered`), a frame on a stream that no request used, a second frame on a stream are reported under `own`."""
     n = "4000" if thorough else "700"
-    v, st, reqinfo, _ = run_traces(ctx, "big-answers-2x2", ["-random", n, "-nodes", "2", "-numconns", "2", "-clients", "4", "-workers", "8",
+    v, st, reqinfo, rawev = run_traces(ctx, "big-answers-2x2", ["-random", n, "-nodes", "2", "-numconns", "2", "-clients", "4", "-workers", "8",
                                                              "-round", "350", "-delay", "2", "-bigevery", "3", "-okbias", "8", "-nodrops",
                                                              "-localbursts", "3", "-burstsforwarded"])
     keys = []
@@ -269,7 +270,20 @@ def concurrent_replies_stage(ctx, own, thorough):
             ctx.violation(key, "answers of up to 20 KiB, pipelined and reordered: %s (request %s)" % (b["what"], info),
                           replay={"violation": b, "request": info})
             keys.append(key)
-    ctx.notes["answers_under_concurrency"] = {"requests": len(reqinfo), "events": v["total"], "violations": len(keys)}
+    # every client of this stage is well-behaved and hangs up only at the end of its round: a connection that ends without the
+    # client having closed it was closed by the proxy, and what the client had sent on it never reached a backend as it was sent
+    closed_by_client, hung_up = set(), []
+    for e in rawev:
+        if e.get("ev") == "ClientClose":
+            closed_by_client.add(e.get("c"))
+        elif e.get("ev") == "ClientClosed" and e.get("c") not in closed_by_client:
+            hung_up.append(e.get("c"))
+    if hung_up:
+        key = "%s:answers-under-concurrency:the-proxy-closed-the-connection-of-a-well-behaved-client" % own.lower()
+        ctx.violation(key, "bursts of well-formed requests written in one piece: the proxy closed %d client connection(s) (clients %s)" % (len(hung_up), hung_up[:5]),
+                      replay={"clients": hung_up})
+        keys.append(key)
+    ctx.notes["answers_under_concurrency"] = {"requests": len(reqinfo), "events": v["total"], "violations": len(keys), "client_connections_closed_by_the_proxy": len(hung_up)}
     return keys
 
 
